@@ -26,9 +26,55 @@ use crate::Value;
 ///
 /// The most natural way to traverse a singly linked list is probably by using
 /// the `list_iter` method.
-#[derive(PartialEq, Clone)]
 pub struct Cons {
     inner: Box<(Value, Value)>,
+}
+
+// `Clone` and `PartialEq` are implemented by hand instead of being derived:
+// the derived implementations recurse into the `cdr` field, and hence use an
+// amount of stack proportional to the length of the list, overflowing the
+// stack for long lists. The implementations below iterate along the `cdr`
+// chain, and only recurse into the `car` fields (and a non-list tail).
+
+impl Clone for Cons {
+    fn clone(&self) -> Self {
+        let mut head = Cons::new(self.car().clone(), Value::Null);
+        let mut tail = &mut head;
+        let mut cursor = self;
+        loop {
+            match cursor.cdr() {
+                Value::Cons(next) => {
+                    tail.set_cdr(Value::Cons(Cons::new(next.car().clone(), Value::Null)));
+                    tail = tail.cdr_mut().as_cons_mut().unwrap();
+                    cursor = next;
+                }
+                rest => {
+                    tail.set_cdr(rest.clone());
+                    return head;
+                }
+            }
+        }
+    }
+}
+
+impl PartialEq for Cons {
+    fn eq(&self, other: &Cons) -> bool {
+        let mut lhs = self;
+        let mut rhs = other;
+        loop {
+            if lhs.car() != rhs.car() {
+                return false;
+            }
+            match (lhs.cdr(), rhs.cdr()) {
+                (Value::Cons(lhs_next), Value::Cons(rhs_next)) => {
+                    lhs = lhs_next;
+                    rhs = rhs_next;
+                }
+                (Value::Cons(_), _) | (_, Value::Cons(_)) => return false,
+                (lhs_rest, rhs_rest) => return lhs_rest == rhs_rest,
+            }
+        }
+    }
 }
 
 impl fmt::Debug for Cons {
